@@ -45,6 +45,7 @@ class Outcome(object):
         self.error = error      # None | (cls, nr)
         self.alts = alts or {}  # index -> alternative acceptable record (documented spec ambiguity)
         self.pulled = pulled    # number of input records the reference needed
+        self.alt_error = None   # an error outcome that is acceptable as well (LIMIT 0 over bad input)
 
     def __repr__(self):
         return 'Outcome(records=%r, header=%r, error=%r)' % (self.records, self.header, self.error)
@@ -516,6 +517,12 @@ def evaluate(q, A, B=None, a_names=None, b_names=None, limit_pull=None):
         recs, alts, pulled = _evaluate(q, A, B, a_names, b_names)
         return Outcome(records=recs, header=ref_header(q, a_names, b_names), alts=alts, pulled=pulled)
     except RefError as e:
+        if q['kind'] == 'select' and q.get('top') is not None and q['top'][1] == 0 and e.cls in ('runtime', 'parsing'):
+            # LIMIT 0: nothing can be output, so the input need not be read at all; an engine that does read it and
+            # trips over a bad record is equally within the statements. Both outcomes are accepted.
+            o = Outcome(records=[], header=ref_header(q, a_names, b_names), pulled=0)
+            o.alt_error = (e.cls, e.nr)
+            return o
         return Outcome(error=(e.cls, e.nr))
 
 
